@@ -265,22 +265,37 @@ def check(ctx):
         ctx.ob("FILL", r, norm(geo[0]), geo[0], ok, "every feature's geometry object is kept unchanged (null included)" if ok else
                "geometries are filtered or transformed while reading", clause="the geometry objects unchanged in a geometry column")
     sd = [c for f, c in calls_in(r) if isinstance(c.func, ast.Attribute) and c.func.attr == "setdefault"]
-    if not sd:
+    # the same collection as a comprehension: {k: [] for x in raw.features for k in x.properties}
+    dcomp = [n for n in body_nodes(r.node) if isinstance(n, ast.Assign) and isinstance(n.value, ast.DictComp)
+             and isinstance(n.targets[0], ast.Name) and isinstance(n.value.value, (ast.List,)) and not n.value.value.elts
+             and len(n.value.generators) == 2 and norm(n.value.generators[0].iter).endswith(".features")]
+    if not sd and dcomp:
+        g0, g1 = dcomp[0].value.generators
+        okc = not g0.ifs and not g1.ifs and norm(g1.iter) in (f"{norm(g0.target)}.properties", f"{norm(g0.target)}.properties.keys()") \
+            and norm(dcomp[0].value.key) == norm(g1.target)
+        ctx.ob("FILL", r, norm(dcomp[0])[:80], dcomp[0], okc,
+               "columns are the union of property keys over all features, each with a list of its own" if okc else
+               "property columns are not collected from every key of every feature",
+               clause="a column for every property key occurring in any feature")
+        floops = floops + [dcomp[0]] if len(floops) < 2 else floops
+    if not sd and not dcomp:
         raise AnalysisError("GeoJSON.read no longer collects its property columns with data.setdefault(key, []) over the features: "
                             "the column assembly was rewritten; FILL cannot read it")
-    ok = bool(sd) and any(_inside(r, c, fl) for c in sd for fl in floops)
-    ctx.ob("FILL", r, "data.setdefault(key, []) for every key of every feature", sd[0] if sd else r.node, ok,
-           "columns are the union of property keys over all features" if ok else
-           "property columns are not collected from every feature (e.g. only from the first)",
-           clause="a column for every property key occurring in any feature")
+    if sd:
+        ok = any(_inside(r, c, fl) for c in sd for fl in floops)
+        ctx.ob("FILL", r, "data.setdefault(key, []) for every key of every feature", sd[0], ok,
+               "columns are the union of property keys over all features" if ok else
+               "property columns are not collected from every feature (e.g. only from the first)",
+               clause="a column for every property key occurring in any feature")
     gets = [c for f, c in calls_in(r) if isinstance(c.func, ast.Attribute) and c.func.attr == "get" and "properties" in norm(c.func.value)]
     ok = bool(gets) and all(len(c.args) == 1 or norm(c.args[1]) == "None" for c in gets)
     ctx.ob("FILL", r, norm(gets[0]) if gets else "feature.properties.get(key, None)", gets[0] if gets else r.node, ok,
            "a feature lacking a key contributes None" if ok else "missing properties are not filled with None",
            clause="missing where a feature lacks it")
-    if gets and len(floops) >= 2:
+    floops = [fl for fl in floops if isinstance(fl, ast.For)]
+    if gets and (len(floops) >= 2 or (dcomp and floops)):
         inner = [n for n in ast.walk(floops[-1]) if isinstance(n, ast.For) and n is not floops[-1]]
-        dn = norm(sd[0].func.value) if sd else "data"
+        dn = norm(sd[0].func.value) if sd else (norm(dcomp[0].targets[0]) if dcomp else "data")
         ok = bool(inner) and norm(inner[0].iter) in (dn, f"{dn}.keys()", f"list({dn})")
         app = [c for f, c in calls_in(r) if isinstance(c.func, ast.Attribute) and c.func.attr == "append" and _inside(r, c, floops[-1])]
         ok = ok and bool(app) and not any(isinstance(x, (ast.Continue, ast.Break)) for x in ast.walk(floops[-1]))
